@@ -18,6 +18,7 @@ func init() { Registry["C10"] = C10 }
 
 func C10(c *Ctx) {
 	r := c.R
+	defer c10StablePoolIndex(c)
 	const pkg = "pkg/nat"
 	r.Explain = "Structural clauses of 'CGNAT port blocks never overlap and are always attributable': the block index comes from a free-slot table (tested free, marked on success, cleared on release) and never from a counter that a release decrements; block end = start + size - 1 and the per-address capacity is the floor of range/size; the existence check and the insert of an allocation form one critical section; every allocate / release path that changes the table reaches the logger (when one is set) with that allocation's own fields; log buffers handed to the writer are detached from the live buffer.  Overlap over histories beyond these structural causes and log completeness semantics are not decided."
 	r.Rule("C10.N1.slotSource", "the block index multiplied by the block size is an index of the free-slot table found free, marked used on success and cleared by the release path; it is not a field that a release path decrements", 4)
